@@ -33,6 +33,7 @@ class World:
         self.writes = []                # (channel, bytes-like) in order
         self.log = []                   # other effects ("sleep", d), ("call_soon", f, args), ...
         self.awaits = 0
+        self.timeouts = 0               # wait_for calls that ended in TimeoutError
         self.cancelled_at = None
         self.hooks = {}                 # primitive-specific environment steps
         self.tasks = []
@@ -414,6 +415,7 @@ def install(interp, world):
         def resolve():
             world.log.append(("wait_for", timeout, getattr(aw, "what", "?")))
             if world.choice("timeout"):
+                world.timeouts += 1
                 world.cancel_point("wait_for")
                 if world.native and asyncio.iscoroutine(aw):
                     aw.close()
@@ -424,6 +426,7 @@ def install(interp, world):
                 return interp_.do_await(aw)
             except PathEnd:
                 # the awaited operation never completes: the timer fires
+                world.timeouts += 1
                 world.cancel_point("wait_for")
                 world.throw(asyncio.TimeoutError)
         return Awaitable(resolve, "wait_for")
